@@ -1,15 +1,23 @@
-#!/bin/sh
-# confirms every imported seed that has no verdict yet (sequential: shares one cargo target cache)
-cd /verif
+#!/bin/bash
+# confirms, then checks, every imported seed that has no verdict yet.  usage: seed_confirm_loop.sh <worker-id>
+# (each worker has its own cargo target cache; a seed is claimed by creating seeded/<id>/.claim)
+cd "$(dirname "$0")/.." || exit 2
+W="${1:-0}"
+mkdir -p .cache/seedlogs
+export VP_SEED_TARGET="$PWD/.cache/seed-target-$W"
 while true; do
   did=0
   for d in seeded/*/; do
     id=$(basename "$d")
     if ! grep -q '"confirmed"' "$d/meta.json" 2>/dev/null; then
-      python3 lib/seed.py confirm "$id" >> /tmp/seed-confirm.log 2>&1
-      did=1
+      if mkdir "$d/.claim" 2>/dev/null; then
+        python3 lib/seed.py confirm "$id" >> .cache/seedlogs/confirm-$W.log 2>&1
+        python3 lib/seed.py check "$id" > .cache/seedlogs/$id.log 2>&1
+        rmdir "$d/.claim"
+        did=1
+      fi
     fi
   done
-  [ -f /tmp/seed-confirm.stop ] && exit 0
-  [ "$did" = 0 ] && sleep 60
+  [ -f .cache/seedlogs/stop ] && exit 0
+  [ "$did" = 0 ] && sleep 30
 done
